@@ -264,6 +264,29 @@ def one_case(ctx, k):
             variant("layout=interleaved-out", base + ["--interleaved", "-o", "lo.fastq"] + ins, [("lo.fastq", "interleaved")])
             variant("layout=interleaved-both", base + ["--interleaved", "-o", "lb.fastq.gz", "inter.fastq"], [("lb.fastq.gz", "interleaved")])
             variant("layout=interleaved-out cores=2", base + ["--interleaved", "-j", "2", "-o", "lc.fastq"] + ins, [("lc.fastq", "interleaved")])
+        # --- layout of the redirect files: a filter's output is two files or interleaved according to its own options,
+        #     whatever the layout of the main output is
+        if paired and not any(o in base for o in ("-m", "-M", "--untrimmed-output", "--discard-untrimmed", "--discard-trimmed")):
+            flt, o1, o2 = rng.choice([(["-m", "12"], "--too-short-output", "--too-short-paired-output"),
+                                      (["-M", "20"], "--too-long-output", "--too-long-paired-output"),
+                                      ([], "--untrimmed-output", "--untrimmed-paired-output")])
+            refm = climon.run(d, base + flt + [o1, "rr1.fastq", o2, "rr2.fastq", "-o", "rm1.fastq", "-p", "rm2.fastq"] + ins, tag="refl", trace=False)
+            if refm.rc == 0:
+                save = list(ref_holder)
+                main_ref = [stream(d, "rm1.fastq"), stream(d, "rm2.fastq")]
+                red_ref = [stream(d, "rr1.fastq"), stream(d, "rr2.fastq")]
+                for tag, argv, main_outs, red_outs in (
+                        ("main-interleaved redirect-two-files", base + flt + ["--interleaved", o1, "la1.fastq", o2, "la2.fastq", "-o", "lam.fastq"] + ins,
+                         [("lam.fastq", "interleaved")], [("la1.fastq", 1), ("la2.fastq", 2)]),
+                        ("both-interleaved cores=2", base + flt + ["--interleaved", "-j", "2", o1, "lcr.fastq", "-o", "lcm.fastq"] + ins,
+                         [("lcm.fastq", "interleaved")], [("lcr.fastq", "interleaved")])):
+                    ref_holder[:] = main_ref
+                    variant(f"redirect-layout={o1} {tag} main", argv, main_outs)
+                    ref_holder[:] = red_ref
+                    variant(f"redirect-layout={o1} {tag} redirect", argv, red_outs)
+                ref_holder[:] = save
+            else:
+                ctx.count("redirect-layout-reference-failed")
         # --- FASTA input: same names and sequences when no quality option is used
         if not b["qual_opts"]:
             with open(os.path.join(d, "in1.fasta"), "w") as f:
